@@ -459,7 +459,10 @@ func handoffRule(c *Check, cone *Cone, read *ssa.Function) {
 		cap  int64
 	}
 	var chans []echan
-	allInstrs(read, func(in ssa.Instruction) {
+	// the processor: Read and the functions of its package it is split into
+	body := cmdBody(p, read)
+	for _, bf := range body {
+	allInstrs(bf, func(in ssa.Instruction) {
 		mk, ok := in.(*ssa.MakeChan)
 		if !ok {
 			return
@@ -483,6 +486,7 @@ func handoffRule(c *Check, cone *Cone, read *ssa.Function) {
 		}
 		chans = append(chans, e)
 	})
+	}
 	c.Floor("error channels created by the processor", 2, len(chans))
 	// sends on error channels in the cone
 	nsend := 0
@@ -517,7 +521,10 @@ func handoffRule(c *Check, cone *Cone, read *ssa.Function) {
 					// non-blocking: the channel the field refers to must have capacity >= 1
 					capOK := false
 					why := "cannot relate the channel to its make()"
-					co := NewResolver(p).Of(st.Chan)
+					// the channel as the sender knows it; when the send sits in a
+					// helper or a method of a named channel type, at its call sites
+					cos := resolveUp(p, fn, st.Chan, 0)
+					for _, co := range cos {
 					if co.K == "field" {
 						// stores to that field
 						fv := fieldVarOf(co)
@@ -531,8 +538,11 @@ func handoffRule(c *Check, cone *Cone, read *ssa.Function) {
 								if !ok || structFieldVar(fa.X.Type(), fa.Field) != fv || !p.InDaemon(f2) {
 									return
 								}
-								so := NewResolver(p).Of(s2.Val)
-								for _, a := range so.Alts() {
+								var soAlts []*Org
+								for _, a0 := range resolveUp(p, f2, s2.Val, 0) {
+									soAlts = append(soAlts, Deref(a0, 0)...)
+								}
+								for _, a := range soAlts {
 									if mk, ok := a.V.(*ssa.MakeChan); ok {
 										if k, ok := mk.Size.(*ssa.Const); ok && k.Value != nil && k.Int64() >= 1 {
 											capOK = true
@@ -546,6 +556,7 @@ func handoffRule(c *Check, cone *Cone, read *ssa.Function) {
 							})
 						}
 					}
+					}
 					c.Cond(capOK, "error-handoff-keeps-first-error", name, p.InstrPos(in), "non-blocking send into a buffered channel: the first error always fits ("+why+")", why)
 				}
 			}
@@ -554,11 +565,44 @@ func handoffRule(c *Check, cone *Cone, read *ssa.Function) {
 	c.Floor("sends of errors in the cone", 2, nsend)
 	// Read's select receives from every error channel and returns what it got
 	var sel *ssa.Select
-	allInstrs(read, func(in ssa.Instruction) {
-		if s, ok := in.(*ssa.Select); ok && s.Blocking {
-			sel = s
+	for _, bf := range body {
+		allInstrs(bf, func(in ssa.Instruction) {
+			if s, ok := in.(*ssa.Select); ok && s.Blocking && (sel == nil || len(s.States) > len(sel.States)) {
+				sel = s
+			}
+		})
+	}
+	if sel != nil && sel.Parent() != read {
+		// the loop was split off: its result must be what Read returns
+		selFn := sel.Parent()
+		okChain := false
+		for _, site := range staticCallers(p, selFn) {
+			if sv, isVal := site.(ssa.Value); isVal && site.Parent() == read {
+				fl := &errFlow{p: p, seen: map[ssa.Value]bool{}}
+				fl.follow(sv, 0)
+				okChain = len(fl.Returned) > 0
+			}
 		}
-	})
+		c.Cond(okChain, "processor-returns-received-error", "result of the loop function "+selFn.Name(), p.Pos(selFn.Pos()), "returned by Read", "the function holding the processor's select loop is not called from Read with its result returned: an error it stops with does not end the processor")
+	}
+	chanMatches := func(v ssa.Value, mk *ssa.MakeChan, cell *ssa.Alloc) bool {
+		if cell != nil && cellOf(r, v) == cell {
+			return true
+		}
+		if strip(v) == ssa.Value(mk) {
+			return true
+		}
+		if sel.Parent() != read {
+			for _, o0 := range resolveUp(p, sel.Parent(), v, 0) {
+				for _, o := range Deref(o0, 0) {
+					if o.K == "alloc" && o.V == ssa.Value(mk) {
+						return true
+					}
+				}
+			}
+		}
+		return false
+	}
 	if sel == nil {
 		c.Bad("processor-returns-received-error", "select loop of Read", p.Pos(read.Pos()), "no blocking select in the processor")
 		return
@@ -570,7 +614,7 @@ func handoffRule(c *Check, cone *Cone, read *ssa.Function) {
 			if st.Dir != types.RecvOnly {
 				continue
 			}
-			if e.cell != nil && cellOf(r, st.Chan) == e.cell || strip(st.Chan) == ssa.Value(e.mk) {
+			if chanMatches(st.Chan, e.mk, e.cell) {
 				found = true
 				cb := selectCaseBlock(sel, i)
 				name := "receive case on " + chanVarName(e.cell)
